@@ -44,18 +44,19 @@ bool make_libtiff(std::string const& v, int w, int h, uint64_t cs, Bytes& out)
     TIFF* t = open_tiff_client(ch, "w");
     if (!t) return false;
     Rng r(cs);
-    bool pal = v == "pal8", white = v == "miniswhite8", planar = v == "rgb8planar";
+    bool pal = v.compare(0, 3, "pal") == 0, white = v == "miniswhite8", planar = v == "rgb8planar";
+    int bits = pal ? atoi(v.c_str() + 3) : 8; // pal1 pal2 pal4 pal8 pal16: index width
     TIFFSetField(t, TIFFTAG_IMAGEWIDTH, (uint32_t)w); TIFFSetField(t, TIFFTAG_IMAGELENGTH, (uint32_t)h);
-    TIFFSetField(t, TIFFTAG_BITSPERSAMPLE, 8); TIFFSetField(t, TIFFTAG_SAMPLESPERPIXEL, planar ? 3 : 1);
+    TIFFSetField(t, TIFFTAG_BITSPERSAMPLE, bits); TIFFSetField(t, TIFFTAG_SAMPLESPERPIXEL, planar ? 3 : 1);
     TIFFSetField(t, TIFFTAG_PLANARCONFIG, planar ? PLANARCONFIG_SEPARATE : PLANARCONFIG_CONTIG); TIFFSetField(t, TIFFTAG_ROWSPERSTRIP, (uint32_t)h);
     TIFFSetField(t, TIFFTAG_PHOTOMETRIC, planar ? PHOTOMETRIC_RGB : pal ? PHOTOMETRIC_PALETTE : white ? PHOTOMETRIC_MINISWHITE : PHOTOMETRIC_MINISBLACK);
     // tags gil's read_header insists on (it does not use libtiff's defaults for them)
     TIFFSetField(t, TIFFTAG_COMPRESSION, COMPRESSION_NONE); TIFFSetField(t, TIFFTAG_SAMPLEFORMAT, SAMPLEFORMAT_UINT);
     TIFFSetField(t, TIFFTAG_RESOLUTIONUNIT, RESUNIT_NONE); TIFFSetField(t, TIFFTAG_XRESOLUTION, 1.0); TIFFSetField(t, TIFFTAG_YRESOLUTION, 1.0);
     TIFFSetField(t, TIFFTAG_ORIENTATION, ORIENTATION_TOPLEFT);
-    uint16_t cr[256], cg[256], cb[256];
-    if (pal) { for (int i = 0; i < 256; ++i) { cr[i] = (uint16_t)r.below(65536); cg[i] = (uint16_t)r.below(65536); cb[i] = (uint16_t)r.below(65536); } TIFFSetField(t, TIFFTAG_COLORMAP, cr, cg, cb); }
-    Bytes row((size_t)w);
+    std::vector<uint16_t> cr((size_t)1 << bits), cg((size_t)1 << bits), cb((size_t)1 << bits);
+    if (pal) { for (size_t i = 0; i < cr.size(); ++i) { cr[i] = (uint16_t)r.below(65536); cg[i] = (uint16_t)r.below(65536); cb[i] = (uint16_t)r.below(65536); } TIFFSetField(t, TIFFTAG_COLORMAP, cr.data(), cg.data(), cb.data()); }
+    Bytes row(((size_t)w * (size_t)bits + 7) / 8);
     for (int pl = 0; pl < (planar ? 3 : 1); ++pl)
         for (int y = 0; y < h; ++y) { for (auto& b : row) b = (unsigned char)r.below(256); TIFFWriteScanline(t, row.data(), (uint32_t)y, (uint16_t)pl); }
     TIFFClose(t);
@@ -78,7 +79,7 @@ bool make(std::string const& v, int w, int h, uint64_t cs, Bytes& out)
     if (base == "rgba8") return write_tiff<gil::rgba8_image_t>(w, h, cs, out, i);
     if (base == "rgba16") return write_tiff<gil::rgba16_image_t>(w, h, cs, out, i);
     if (base == "cmyk8") return write_tiff<gil::cmyk8_image_t>(w, h, cs, out, i);
-    if (base == "pal8" || base == "miniswhite8" || base == "rgb8planar") return make_libtiff(base, w, h, cs, out);
+    if (base.compare(0, 3, "pal") == 0 || base == "miniswhite8" || base == "rgb8planar") return make_libtiff(base, w, h, cs, out);
     return false;
 }
 
@@ -87,7 +88,7 @@ std::vector<Variant> const& g_fmt_variants()
     static std::vector<Variant> const v = {{"gray1", "gray1"}, {"gray1_tile", "gray1"}, {"gray2", "gray2"}, {"gray4", "gray4"}, {"gray8", "gray8"}, {"gray8_lzw", "gray8"}, {"gray8_tile", "gray8"},
                   {"gray16_deflate", "gray16"}, {"gray32f", "gray32f"}, {"rgb8", "rgb8"}, {"rgb8_tile", "rgb8"}, {"rgb8_lzw", "rgb8"}, {"rgb8_packbits", "rgb8"},
                   {"rgb8planar", "rgb8"}, {"rgb16", "rgb16"}, {"rgba8", "rgba8"}, {"rgba8_tile_lzw", "rgba8"}, {"rgba16", "rgba16"}, {"cmyk8", "cmyk8"},
-                  {"pal8", "rgb16"}, {"miniswhite8", "gray8"}};
+                  {"pal8", "rgb16"}, {"miniswhite8", "gray8"}, {"pal1", "rgb16"}, {"pal2", "rgb16"}, {"pal4", "rgb16"}, {"pal16", "rgb16"}};
     return v;
 }
 
@@ -194,7 +195,7 @@ Outcome paths(Json const& plan)
     // tiff/detail/scanline_read.hpp: tiled images, planar images ("scanline_reader doesn't support planar tiff images.")
     cfg.scan_refused = v.find("_tile") != std::string::npos || v == "rgb8planar";
     // tiff/detail/read.hpp read_palette_image: "User supplied image type must be rgb16_image_t."
-    cfg.convert_refused = v == "pal8";
+    cfg.convert_refused = v.compare(0, 3, "pal") == 0;
     std::string native;
     for (auto const& x : g_fmt_variants()) if (x.name == v) native = x.native;
     cfg.any_ok = native == "gray8" || native == "gray16" || native == "rgb8" || native == "rgba8" || native == "rgb16";
